@@ -221,20 +221,28 @@ def containers(v, out=None):
     return out
 
 
+def _items(d):
+    return [(k, v) for k, v in d.items] if isinstance(d, Assoc) else list(d.items())
+
+
 def spec_equal(a, b):
-    """JSON equality of sanitised values (tuples allowed) as a formula."""
+    """JSON equality of sanitised values (tuples allowed; dicts may be Assoc
+    lists from spec_roundtrip) as a formula."""
     la, lb = isinstance(a, (list, tuple)), isinstance(b, (list, tuple))
     if la or lb:
         if not (la and lb) or len(a) != len(b):
             return False
         return L.and_(*[spec_equal(x, y) for x, y in zip(a, b)])
-    da, db = isinstance(a, dict), isinstance(b, dict)
+    da, db = isinstance(a, (dict, Assoc)), isinstance(b, (dict, Assoc))
     if da or db:
-        if not (da and db) or len(a) != len(b):
+        if not (da and db):
+            return False
+        ia, ib = _items(a), _items(b)
+        if len(ia) != len(ib):
             return False
         conds = []
-        for ka, va in a.items():
-            conds.append(L.or_(*[L.and_(ka == kb, spec_equal(va, vb)) for kb, vb in b.items()]))
+        for ka, va in ia:
+            conds.append(L.or_(*[L.and_(_key_eq(ka, kb), spec_equal(va, vb)) for kb, vb in ib]))
         return L.and_(*conds)
     if a is None or b is None:
         return a is b
@@ -243,6 +251,13 @@ def spec_equal(a, b):
         return False
     if (ca is str) != (cb is str):
         return False
+    r = (a == b)
+    if r is NotImplemented:
+        return False
+    return r if is_sym(r) else bool(r)
+
+
+def _key_eq(a, b):
     r = (a == b)
     if r is NotImplemented:
         return False
